@@ -171,7 +171,7 @@ impl Default for Profile {
             kind_weights: [30, 30, 8, 7, 25],
             cb_weights: [25, 20, 15, 20, 15, 5],
             sched_pct: 30,
-            max_clusters: 64,
+            max_clusters: 200,
             default_cache_pct: 25,
             partial_tail: true,
             min_refcount_order: 0,
